@@ -1325,6 +1325,7 @@ BUILTINS = {
     "enumerate": Builtin("enumerate", _b_enumerate),
     "zip": Builtin("zip", _b_zip),
     "sorted": Builtin("sorted", _b_sorted),
+    "reversed": Builtin("reversed", lambda i, a, k, t: list(reversed(a[0])) if isinstance(a[0], (list, tuple)) else Opaque(f"reversed({to_text(a[0])})")),
     "ceil": Builtin("ceil", _b_ceil),
     "hex": Builtin("hex", _b_hex),
     "dir": Builtin("dir", _b_dir),
